@@ -309,11 +309,35 @@ def strategy_factory(knobs):
 # ---- known finding F6: a custom property shared by several rules ---------------------------------------------------
 
 
+F6_BUCKETS = ("written-colour-differs-from-reported", "adjusted-colour-misses-target", "counted-readable-but-fails",
+              "reported-colour-differs-from-api")
+
+
 def m_shared_var(subname, bucket, case):
-    return bucket.endswith(":shared-var")
+    """F6 only: the violated rule takes its colour or background through a custom property that several declarations
+    reference (suffix computed from the INPUT sheet), and the symptom is one of those a later rewrite of that shared
+    definition can cause. Accounting, structure, missing output etc. are never set aside."""
+    return bucket.endswith(":shared-var") and bucket[: -len(":shared-var")] in F6_BUCKETS
 
 
 MATCHERS = {"shared-custom-property": m_shared_var}
+
+
+@st.composite
+def f6_template(draw):
+    """Sheets built to exhibit F6: one custom property used as text colour by two rules on different backgrounds."""
+    g = draw(st.integers(90, 170))
+    c = f"#{g:02x}{g:02x}{g:02x}"
+    b1 = draw(st.sampled_from(["#ffffff", "#fafafa", "#f0f0f0", None]))
+    b2 = draw(st.sampled_from(["#000000", "#111111", "#222222", "#1a1a2e"]))
+    r1 = ".r1 { color: var(--c);" + (f" background-color: {b1};" if b1 else "") + " }"
+    r2 = f".r2 {{ color: var(--c); background-color: {b2}; }}"
+    rules = [r1, r2]
+    if draw(st.booleans()):
+        rules.reverse()
+    extra = draw(st.sampled_from(["", ".r3 { color: #000000; background-color: #ffffff; }\n", "@media print { .r4 { color: #767676; } }\n"]))
+    css = f":root {{ --c: {c}; }}\n" + "\n".join(rules) + "\n" + extra
+    return {"css": css, "settings": draw(sheets.cli_settings())}
 
 
 # ---- real console script (subprocess) ----------------------------------------------------------------------------
@@ -355,6 +379,7 @@ def subchecks(tier):
     subs = [
         Hyp("sheets-main", strategy_factory(main_knobs), judge, examples=1600 if q else 48000),
         Hyp("sheets-shared-custom-property", strategy_factory({"shared_vars": True}), judge, examples=240 if q else 4000),
+        Hyp("sheets-shared-f6-template", f6_template, judge, examples=64 if q else 640, shards=8),
     ]
     if not q:
         subs.append(Hyp("console-script-subprocess", strategy_factory(main_knobs), subprocess_judge, examples=240))
